@@ -1,6 +1,6 @@
 (* C09 — the LRU cache offers least-recently-used entries for eviction first. *)
 From Coq Require Import List Arith ZArith.
-From LK Require Import AList AListFacts Model Inv StepInv PropLemmas.
+From LK Require Import AList AListFacts Model Inv StepInv PropLemmas Lru.
 Import ListNotations.
 
 (* (1) What is offered is a prefix of the evictable entries in the cache's recency order
@@ -30,6 +30,25 @@ Theorem C09_only_the_subject_key_moves : forall c s l s' o,
   step c s l = ROk s' o -> (forall o', l <> LConsume o') ->
   order_rel (subject s l) (s_ents s) (s_ents s').
 Proof. exact step_order_frame. Qed.
+
+(* (4) The interval form of the property, for every run of the LRU cache from the empty state
+   (gsteps = steps with a ghost that records, per key, the index of the last step that moved the key to
+   the MRU end): let the look-up of a lock call for B happen at some step, and let no step of a lock call
+   for A and no unlock of a guard for A (= no part of any use of A) happen at or after that step; then, if
+   both are present at the end, A precedes B in the recency order ... *)
+Theorem C09_interval_order : forall ls1 lB ls2 i s1 lm1 s2 j s3 lm3 A B ob,
+  gsteps (mkCfg true) 0 init (fun _ => 0) ls1 i s1 lm1 ->
+  step (mkCfg true) s1 lB = ROk s2 ob -> (forall o', lB <> LConsume o') -> is_lookup_of (mkCfg true) s1 lB s2 B ->
+  gsteps (mkCfg true) (S i) s2 (ghost_upd s1 lB s2 i lm1) ls2 j s3 lm3 ->
+  subject s1 lB <> Some A -> (forall s0 l, In l ls2 -> subject s0 l = Some A -> False) ->
+  In A (akeys (s_ents s3)) -> In B (akeys (s_ents s3)) -> A <> B ->
+  before (akeys (s_ents s3)) A B.
+Proof. intros ls1 lB ls2 i s1 lm1 s2 j s3 lm3 A B ob. exact (lru_interval_order (mkCfg true) ls1 lB ls2 i s1 lm1 s2 j s3 lm3 A B ob eq_refl). Qed.
+
+(* ... and therefore (with (1)) whenever B is offered for eviction and A is evictable, A is offered too. *)
+Theorem C09_offer_respects_order : forall (f : key -> bool) l n A B,
+  NoDup l -> before l A B -> f A = true -> In B (firstn n (filter f l)) -> In A (firstn n (filter f l)).
+Proof. exact prefix_respects_before. Qed.
 
 (* non-vacuity: A=1 used, then B=2 used, then A used again; at limit 2, B is offered (not A). *)
 Example C09_witness :
